@@ -218,7 +218,7 @@ func runC09(c *Ctx) {
 					// construction of a fresh object
 				case perRequestTypes[typeFullName(rootT)] != "":
 					// per-request object (its own fields, or the copy of the entry embedded in it)
-				case key == "rt/middleware.untypedParamBinder.Name" && fnName(fn) == "(*rt/middleware.UntypedRequestBinder).Bind":
+				case key == "rt/middleware.untypedParamBinder.Name" && onlyRootedIn(fn, "(*rt/middleware.UntypedRequestBinder).Bind"):
 					ok, why = c09BinderNameException(c, fn, st, reach)
 				default:
 					ok, why = false, "store to field "+key+" through a pointer that is neither a per-request object nor freshly allocated here"
@@ -1032,4 +1032,21 @@ func ruleContentTypeAccessorParses(c *Ctx, rule string) {
 			}
 		}
 	}
+}
+
+// onlyRootedIn: fn is the named function, or a looked-through helper entered only from it.
+func onlyRootedIn(fn *ssa.Function, name string) bool {
+	if fnName(fn) == name {
+		return true
+	}
+	if !isTransparent(fn) {
+		return false
+	}
+	rs := rootsOf(fn)
+	for _, r := range rs {
+		if fnName(r) != name {
+			return false
+		}
+	}
+	return len(rs) > 0
 }
